@@ -37,6 +37,7 @@ type Cycle struct {
 	Goroutines int    `json:"goroutines"`           // concurrent storers
 	Burst      int    `json:"burst"`                // messages per goroutine (selfkill / close end after the burst)
 	Size       int    `json:"size"`                 // payload size
+	Pin        bool   `json:"pin,omitempty"`        // the ids of this life carry the current minute as their time (lives that follow each other quickly then share the second: nothing else may make two ids equal)
 	ReadStores bool   `json:"readstores,omitempty"` // the fresh process that reads history afterwards first stores one more message (a publish arrives before the first history request)
 }
 
@@ -48,7 +49,7 @@ type Case struct {
 func genCase(t *rapid.T) Case {
 	var c Case
 	for i, n := 0, rapid.IntRange(2, 5).Draw(t, "cycles"); i < n; i++ {
-		cy := Cycle{End: rapid.SampledFrom([]string{"kill-ms", "kill-ms", "kill-acks", "selfkill", "selfkill", "close", "close-busy"}).Draw(t, "end"), ReadStores: rapid.IntRange(0, 2).Draw(t, "readstores") == 0,
+		cy := Cycle{End: rapid.SampledFrom([]string{"kill-ms", "kill-ms", "kill-acks", "selfkill", "selfkill", "close", "close-busy"}).Draw(t, "end"), ReadStores: rapid.IntRange(0, 2).Draw(t, "readstores") == 0, Pin: rapid.IntRange(0, 2).Draw(t, "pin") == 0,
 			Goroutines: rapid.SampledFrom([]int{1, 1, 4, 16, 64}).Draw(t, "g"), Burst: rapid.SampledFrom([]int{1, 5, 30, 100}).Draw(t, "burst"),
 			Size: rapid.SampledFrom([]int{0, 8, 8, 200, 5000}).Draw(t, "size")}
 		switch cy.End {
@@ -174,6 +175,9 @@ func childMain(p plan) {
 				ch, ssid := chanOf(i)
 				m := message.New(ssid, []byte(ch), payloadOf(i, cy.Size))
 				m.TTL = ttlOf(i)
+				if cy.Pin {
+					m.ID.SetTime(time.Now().Unix() / 60 * 60)
+				}
 				say("TRY %d %s\n", i, hex.EncodeToString(m.ID))
 				err := func() (err error) {
 					defer func() {
